@@ -23,7 +23,8 @@ RULE = ('one table 1..5 x 1..5 (values counts/small/signed/dyadic/big, every met
         'labellings, tables that already carry collapsed_ids metadata (written by hand, or by a first collapse: collapse '
         'of a collapsed table, first level with and without metadata, same and other axis), '
         'labellings that leave some ids without a label (None is a label like any other there), '
-        'norm on/off, min_group_size 0..3, include_collapsed_metadata on/off, bad one_to_many_mode; one-to-many: '
+        'norm on/off, min_group_size 0..3, include_collapsed_metadata on/off, bad one_to_many_mode, plus a deterministic '
+        'block of 80 collapses (6 x 6 table, both axes) with a too-small group before / after a larger kept one; one-to-many: '
         'generators yielding 0..3 (pathway, group) pairs per vector (duplicates, shared groups, short pathways '
         'raising IndexError), by metadata or by id, add/divide, strict on/off, md key, axes with and without metadata; '
         'non-trivial = a labelling with at least two labels or a group of at least two vectors; distinct by case hash')
@@ -287,7 +288,37 @@ def gen_o2m(rng):
             'include_md': rng.random() < 0.8, 'norm': rng.random() < 0.05}
 
 
+def size_order_block():
+    """deterministic block: one-to-one collapses in which a too-small group (singleton / pair) is met BEFORE a
+    larger kept group of a different size (and the reverse orders as control), min_group_size 2 and 3, norm on and
+    off, both axes, both dict forms: the divisor of a kept vector must be ITS member count"""
+    n = 6
+    mat = [[float((3 * i + 5 * j) % 7 + (1 if (i + j) % 4 else 0)) for j in range(n)] for i in range(n)]
+    mat[2][3] = 0.0
+    mat[4][1] = -2.0
+    seqs = ['ABBBBB', 'AABBBB', 'ABBCCC', 'ABCCCB', 'ABABBB', 'AABCCC',      # small group(s) first
+            'BBBBBA', 'BBBBAA', 'CCCBBA', 'BCCCBA']                          # control: large group first
+    for axis in AXES:
+        spec = {'oids': ['v%d' % i for i in range(n)], 'sids': ['w%d' % j for j in range(n)], 'mat': mat,
+                'omd': None, 'smd': None, 'type': 'OTU table', 'layout': ['csr' if axis == 'observation' else 'csc']}
+        ids = spec['oids'] if axis == 'observation' else spec['sids']
+        for k, seq in enumerate(seqs):
+            for mgs in (2, 3):
+                for norm in (True, False):
+                    if k % 2 == 0:
+                        f = {'kind': 'idmap', 'map': [[i, 'grp' + l] for i, l in zip(ids, seq)]}
+                    else:
+                        groups = {}
+                        for i, l in zip(ids, seq):
+                            groups.setdefault('grp' + l, []).append(i)
+                        f = {'kind': 'grpmap', 'map': [[g, m] for g, m in groups.items()], 'tuple': bool(mgs % 2)}
+                    yield {'op': 'collapse', 'spec': copy.deepcopy(spec), 'axis': axis, 'f': f, 'norm': norm,
+                           'min_group_size': mgs, 'include_md': True, 'mode': 'add'}
+
+
 def gen(rng, tier):
+    for c in size_order_block():
+        yield c
     n = 400 if tier == 'quick' else 4000
     for _ in range(n):
         yield gen_partition(rng)
